@@ -78,6 +78,14 @@ def make_case(prog, tier, nmsgs):
         tails = TAILS if (i < 2 or thorough) else [[0xEE]]
         for t in tails:
             ops.append({"op": "dec", "id": mid, "pkt": rootname, "bytes": ref, "tail": t})
+    # histories: decode message i+1 into the object that just decoded message i (reused receiver)
+    prev = None
+    for rec in recs:
+        if prev is not None:
+            ops.append({"op": "dec", "id": rec["id"], "pkt": rootname, "bytes": rec["ref"], "tail": [0xEE], "reuse": True})
+        prev = rec
+    if len(recs) > 1:
+        ops.append({"op": "dec", "id": recs[0]["id"], "pkt": rootname, "bytes": recs[0]["ref"], "tail": [0xEE], "reuse": True})
     keyrecs = []
     for j, (mf, kb, pk) in enumerate(unknown_keys(prog)):
         g = wire_ref.MsgGen(prog, random.Random(5), list_len=1, int_cls="pattern", str_idx=1, key=(mf, kb, pk))
@@ -164,13 +172,16 @@ def trace_of(results, use_langs):
                     continue
                 for e in byid[l].get(("enc", rec["id"]), []):
                     x = {"ev": "enc", "lang": l, "ok": bool(e.get("ok")), "bytes": e.get("bytes", []),
-                         "calcs": e.get("calcs", []), "cls": e.get("cls", "")}
+                         "calcs": e.get("calcs", []), "prims": e.get("prims", []), "cls": e.get("cls", "")}
                     ev(x, {"prog": pid, "msg": rec["label"], "lang": l, "err": e.get("err")})
-                for e in byid[l].get(("dec", rec["id"]), []):
+                decs = byid[l].get(("dec", rec["id"]), [])
+                for di, e in enumerate(decs):
                     x = {"ev": "dec", "lang": l, "ok": bool(e.get("ok")), "tail": e.get("tail", 0),
                          "val": e.get("val", {"t": "o", "fs": []}), "consumed": e.get("consumed", -1),
                          "reenc": e.get("reenc", [-1]), "cls": e.get("cls", "")}
-                    ev(x, {"prog": pid, "msg": rec["label"], "lang": l, "err": e.get("err") or e.get("reenc_err")})
+                    # the last dec op of a message decodes into the object that decoded the previous message
+                    reused = len(res["msgs"]) > 1 and len(decs) > 1 and di == len(decs) - 1
+                    ev(x, {"prog": pid, "msg": rec["label"], "lang": l, "err": e.get("err") or e.get("reenc_err"), "reused": reused})
             ev({"ev": "agree"}, {"prog": pid, "msg": rec["label"]})
         for k in res["keys"]:
             for l in use_langs:
